@@ -173,6 +173,21 @@ CLAIMED = {
         note="The metaschemas are regenerated from /repo/jsonschema/schemas on every run, so a change to a bundled metaschema "
              "changes both sides consistently; the calibration against the official suite in setup guards the semantics.",
         design="5 C11"),
+    "C12": dict(
+        technique="TLA+ FormatProto (checker = name -> behaviour; outcome of the format keyword) with the registration action "
+                  "checks(); TLC enumerates checker configurations x probes (MC_C12: OffWithoutChecker, UnknownPasses) and exports "
+                  "expected outcomes replayed through validation in 4 drafts and conforms()",
+        text="The protocol between the format keyword and a checker is specified: no checker -> no effect; unknown name -> pass; "
+             "truthy -> pass; falsy -> error without cause; an exception listed in raises -> error whose cause IS that "
+             "exception object; any other exception reaches the caller unchanged; built-ins pass every non-string. TLC "
+             "enumerates the configurations reachable by registrations on fresh checkers (new names, the empty name, "
+             "overriding a built-in) and the shared draft checker objects, with probes of every JSON type, and exports the "
+             "expected outcome; the replay builds the real checker from the model's description (functions that return or "
+             "raise as told, unlisted exceptions of several plausible classes), validates in four drafts, compares outcome, "
+             "cause identity and escaping-exception identity, and requires conforms() to agree with validation.",
+        note="String instances of built-in formats use the FormatGrammar recognisers (C13) for email / ipv4 / ipv6 / date; other "
+             "built-ins are probed with non-strings only.",
+        design="5 C12"),
     "C13": dict(
         technique="TLA+ FormatGrammar recognisers (ipv4, ipv6 per RFC 4291, RFC 3339 full-date, email); TLC mutation machine MC_C13 "
                   "(insert / delete / substitute from seeds) exporting verdicts replayed on conforms() / check(); "
@@ -299,7 +314,7 @@ CLAIMED = {
         design="5 C20"),
 }
 
-PENDING_REASON = "check not built yet in this round (framework under construction; DESIGN.md section 8 build order)"
+PENDING_REASON = "not claimed"
 
 
 def main():
